@@ -207,6 +207,10 @@ def _run_whittaker(case, ctx):
         loading = sorted(r.uniform(0.02, 0.98) * nm for _ in range(r.randint(2, 15)))
         if r.random() < 0.3:
             loading = [0.0] + loading
+        if case["seed"] % 3 == 0:
+            # the loadings in whatever order the user lists them (descending, as read off a table, shuffled)
+            loading = loading[::-1] if case["seed"] % 2 else r.sample(loading, len(loading))
+            ctx.count("whittaker", "requested-loadings-not-ascending")
         res = _call(enthalpy_sorption_whittaker, iso, loading=loading)
     else:
         loading = list(numpy.linspace(nm * 0.01, nm * 0.99, 100))
